@@ -1366,3 +1366,249 @@ Proof.
     symmetry. apply N.eqb_eq. unfold p_size. fold (blen (h ++ p_body p)). blen_norm. lia.
   - unfold p_size in Hsz. blen_norm. lia.
 Qed.
+
+Lemma OPEN_body p p1 q a ns ar Q A NS AR :
+  OPEN p q a ns ar Q A NS AR -> PINV p1 -> p_body p1 = p_body p -> OPEN p1 q a ns ar Q A NS AR.
+Proof.
+  intros [_ Ho] Hp1 Hb. split; [exact Hp1|].
+  intros h Hh. unfold p_size. rewrite Hb. apply Ho. exact Hh.
+Qed.
+
+Lemma OPEN_snoc p p1 q a ns ar Q A NS AR v :
+  OPEN p q a ns ar Q A NS AR -> PINV p1 -> (exists bs, p_body p1 = p_body p ++ bs) ->
+  (forall h, blen h = 12 -> ref_record (h ++ p_body p1) (p_size p) = Some (v, p_size p1)) ->
+  OPEN p1 q a ns (ar + 1) Q A NS (AR ++ [v]).
+Proof.
+  intros [_ Ho] Hp1 [bs Hb] Hrec. split; [exact Hp1|].
+  intros h Hh. destruct (Ho h Hh) as (o1 & o2 & o3 & HQ & HA & HNS & HAR).
+  exists o1, o2, o3. rewrite Hb, app_assoc.
+  split; [apply ref_questions_stable; exact HQ|].
+  split; [apply ref_records_stable; exact HA|].
+  split; [apply ref_records_stable; exact HNS|].
+  rewrite to_nat_succ. eapply ref_records_snoc.
+  - apply ref_records_stable. exact HAR.
+  - rewrite <- app_assoc, <- Hb. apply Hrec. exact Hh.
+Qed.
+
+Lemma OPEN_empty : OPEN empty_pkt 0 0 0 0 [] [] [] [].
+Proof.
+  split; [exact PINV_empty|]. intros h _. exists 12, 12, 12. repeat split; reflexivity.
+Qed.
+
+Lemma put_addls_done resp id fl : forall rs done p q a ns ar,
+  put_addls resp id fl done p q a ns ar rs
+  = match put_addls resp id fl [] p q a ns ar rs with
+    | Ok (m, p', c) => Ok (done ++ m, p', c)
+    | Err => Err | Panic => Panic | OutOfFuel => OutOfFuel
+    end.
+Proof.
+  induction rs as [|r rs IH]; intros done p q a ns ar.
+  - cbn [put_addls]. rewrite app_nil_r. reflexivity.
+  - cbn [put_addls].
+    destruct (put_record p r 0) as [[p1 ok]| | |]; cbn [bind]; try reflexivity.
+    destruct ok; [apply IH|].
+    destruct resp; [rewrite app_nil_r; reflexivity|].
+    destruct (put_record empty_pkt r 0) as [[p2 ok2]| | |]; cbn [bind]; try reflexivity.
+    rewrite (IH (done ++ _)), (IH ([] ++ _)).
+    destruct (put_addls false id fl [] p2 0 0 0 (if ok2 then 1 else 0) rs) as [[[m p'] c]| | |];
+      try reflexivity.
+    rewrite <- app_assoc. reflexivity.
+Qed.
+
+Definition GOOD (id fl : N) (pkts : list bytes) (Q : list ref_q) (A NS ARall : list ref_rr) : Prop :=
+  exists m0 ms, parse_all pkts = Some (m0 :: ms)
+    /\ forallb (fun p => blen p <=? MAX_MSG) pkts = true
+    /\ forallb (fun x => fm_id x =? id) (m0 :: ms) = true
+    /\ flags_ok fl (m0 :: ms) = true
+    /\ fm_questions m0 = Q /\ fm_answers m0 = A /\ fm_authorities m0 = NS
+    /\ Forall (fun m => fm_questions m = [] /\ fm_answers m = [] /\ fm_authorities m = []) ms
+    /\ concat (map fm_additionals (m0 :: ms)) = ARall.
+
+Lemma GOOD_single p id fl q a ns ar Q A NS AR :
+  OPEN p q a ns ar Q A NS AR -> id < 65536 -> fl < 65536 ->
+  GOOD id fl [finish p id fl q a ns ar] Q A NS AR.
+Proof.
+  intros Ho Hid Hfl. destruct (finish_parse _ id fl _ _ _ _ _ _ _ _ Ho Hid Hfl) as [Hp Hs].
+  exists (mkRefMsg id fl Q A NS AR), [].
+  split; [unfold parse_all; cbn [fold_right]; rewrite Hp; reflexivity|].
+  split; [cbn [forallb]; rewrite andb_true_r; apply N.leb_le; exact Hs|].
+  split; [cbn [forallb fm_id]; rewrite N.eqb_refl; reflexivity|].
+  split; [cbn [flags_ok fm_flags]; apply N.eqb_refl|].
+  repeat (split; [reflexivity|]). split; [constructor|].
+  cbn [map concat fm_additionals]. apply app_nil_r.
+Qed.
+
+Lemma GOOD_cons id fl fin rest Q A NS AR AR2 :
+  ref_parse fin = Some (mkRefMsg id (N.lor fl 512) Q A NS AR) -> blen fin <= MAX_MSG ->
+  GOOD id fl rest [] [] [] AR2 -> GOOD id fl (fin :: rest) Q A NS (AR ++ AR2).
+Proof.
+  intros Hp Hs (m0 & ms & G1 & G2 & G3 & G4 & G5 & G6 & G7 & G8 & G9).
+  exists (mkRefMsg id (N.lor fl 512) Q A NS AR), (m0 :: ms).
+  split.
+  { unfold parse_all in *. cbn [fold_right]. rewrite Hp, G1. reflexivity. }
+  split.
+  { cbn [forallb]. rewrite G2, andb_true_r. apply N.leb_le. exact Hs. }
+  split.
+  { change (forallb (fun x => fm_id x =? id) (mkRefMsg id (N.lor fl 512) Q A NS AR :: m0 :: ms))
+      with ((id =? id) && forallb (fun x => fm_id x =? id) (m0 :: ms)).
+    rewrite G3, N.eqb_refl. reflexivity. }
+  split.
+  { change (flags_ok fl (mkRefMsg id (N.lor fl 512) Q A NS AR :: m0 :: ms))
+      with ((N.lor fl 512 =? N.lor fl 512) && flags_ok fl (m0 :: ms)).
+    rewrite G4, N.eqb_refl. reflexivity. }
+  repeat (split; [reflexivity|]).
+  split; [constructor; [auto|exact G8]|].
+  change (concat (map fm_additionals (mkRefMsg id (N.lor fl 512) Q A NS AR :: m0 :: ms)))
+    with (AR ++ concat (map fm_additionals (m0 :: ms))).
+  rewrite G9. reflexivity.
+Qed.
+
+Lemma put_addls_props resp id fl :
+  id < 65536 -> fl < 65536 ->
+  forall rs p q a ns ar Q A NS AR,
+  OPEN p q a ns ar Q A NS AR -> forallb wf_orec rs = true ->
+  exists mids p' q' a' ns' ar' ARnew,
+    put_addls resp id fl [] p q a ns ar rs = Ok (mids, p', (q', a', ns', ar'))
+    /\ is_subseq ref_rr_beq ARnew (map view_other rs) = true
+    /\ GOOD id fl (map fst mids ++ [finish p' id fl q' a' ns' ar']) Q A NS (AR ++ ARnew).
+Proof.
+  intros Hid Hfl.
+  induction rs as [|r rs IH]; intros p q a ns ar Q A NS AR Ho Hwf.
+  - exists [], p, q, a, ns, ar, []. split; [reflexivity|]. split; [reflexivity|].
+    rewrite app_nil_r. cbn [map app]. apply GOOD_single; assumption.
+  - cbn [forallb] in Hwf. apply andb_true_iff in Hwf as [Hr Hrs].
+    destruct (put_record_props p r 0 (proj1 Ho) Hr (ttl_ok_0 r)) as (p1 & ok & Hput & Hp1 & Hno & Hyes).
+    cbn [put_addls]. rewrite Hput. cbn [bind].
+    destruct ok.
+    + destruct (Hyes eq_refl) as [Hbs Hrec].
+      assert (Ho1 : OPEN p1 q a ns (ar + 1) Q A NS (AR ++ [view_other r])).
+      { eapply OPEN_snoc; eauto. }
+      destruct (IH p1 q a ns (ar + 1) Q A NS _ Ho1 Hrs)
+        as (mids & p' & q' & a' & ns' & ar' & ARnew & Hrun & Hsub & Hgood).
+      exists mids, p', q', a', ns', ar', (view_other r :: ARnew).
+      split; [exact Hrun|].
+      split; [cbn [map]; apply is_subseq_cons_both; [apply ref_rr_beq_refl|exact Hsub]|].
+      rewrite <- app_assoc in Hgood. exact Hgood.
+    + specialize (Hno eq_refl).
+      assert (Ho1 : OPEN p1 q a ns ar Q A NS AR) by (eapply OPEN_body; eauto).
+      destruct resp.
+      * exists [], p1, q, a, ns, ar, []. split; [reflexivity|]. split; [reflexivity|].
+        rewrite app_nil_r. cbn [map app]. apply GOOD_single; assumption.
+      * assert (Hfl' : N.lor fl 512 < 65536) by (apply lor_lt_65536; [exact Hfl|lia]).
+        destruct (finish_parse _ id (N.lor fl 512) _ _ _ _ _ _ _ _ Ho1 Hid Hfl') as [Hfp Hfs].
+        destruct (put_record_props empty_pkt r 0 PINV_empty Hr (ttl_ok_0 r))
+          as (p2 & ok2 & Hput2 & Hp2 & Hno2 & Hyes2).
+        rewrite Hput2. cbn [bind]. rewrite put_addls_done.
+        assert (Ho2 : exists AR2,
+                  OPEN p2 0 0 0 (if ok2 then 1 else 0) [] [] [] AR2
+                  /\ is_subseq ref_rr_beq AR2 [view_other r] = true).
+        { destruct ok2.
+          - exists [view_other r]. split.
+            + destruct (Hyes2 eq_refl) as [Hbs2 Hrec2].
+              apply (OPEN_snoc empty_pkt p2 0 0 0 0 [] [] [] [] (view_other r) OPEN_empty Hp2 Hbs2 Hrec2).
+            + apply is_subseq_cons_both; [apply ref_rr_beq_refl|reflexivity].
+          - exists []. split; [|reflexivity].
+            apply (OPEN_body empty_pkt p2 _ _ _ _ _ _ _ _ OPEN_empty Hp2 (Hno2 eq_refl)). }
+        destruct Ho2 as (AR2 & Ho2 & Hsub2).
+        destruct (IH p2 0 0 0 (if ok2 then 1 else 0) [] [] [] AR2 Ho2 Hrs)
+          as (mids & p' & q' & a' & ns' & ar' & ARnew & Hrun & Hsub & Hgood).
+        rewrite Hrun.
+        eexists _, p', q', a', ns', ar', (AR2 ++ ARnew).
+        split; [reflexivity|].
+        split.
+        { cbn [map]. destruct AR2 as [|v AR2'].
+          - apply is_subseq_cons_r. exact Hsub.
+          - cbn [is_subseq] in Hsub2. destruct (ref_rr_beq v (view_other r)) eqn:Ev.
+            + destruct AR2'; [|discriminate].
+              (* AR2 = [v] arises only as [view_other r] *)
+              cbn [app is_subseq]. rewrite Ev. exact Hsub.
+            + discriminate. }
+        cbn [app map fst]. apply GOOD_cons; assumption.
+Qed.
+
+(* ------------------------------------------------------------------------------------ *)
+(* 7. The round trip                                                                     *)
+(* ------------------------------------------------------------------------------------ *)
+
+Lemma concat_nil_tail (ms : list ref_msg) :
+  Forall (fun m => fm_questions m = [] /\ fm_answers m = [] /\ fm_authorities m = []) ms ->
+  concat (map fm_questions ms) = [] /\ concat (map fm_answers ms) = []
+  /\ concat (map fm_authorities ms) = [].
+Proof.
+  induction 1 as [|m ms (H1 & H2 & H3) _ (I1 & I2 & I3)]; [repeat split; reflexivity|].
+  cbn [map concat]. rewrite H1, H2, H3, I1, I2, I3. repeat split; reflexivity.
+Qed.
+
+Lemma TINV_empty : TINV empty_pkt.
+Proof. intros h _. apply tbl_ok_nil. Qed.
+
+(* the state after questions, answers and authorities, and what was kept *)
+Lemma sections_open m p0 :
+  wf_out m = true -> write_questions empty_pkt (og_questions m) = Ok p0 -> p_size p0 <= MAX_MSG ->
+  exists p1 a p2 ns lA lN,
+    put_answers p0 (og_answers m) 0 = Ok (p1, a)
+    /\ put_auths p1 (og_authorities m) 0 = Ok (p2, ns)
+    /\ is_subseq ref_rr_beq lA (map view_answer (og_answers m)) = true
+    /\ is_subseq ref_rr_beq lN (map view_other (og_authorities m)) = true
+    /\ OPEN p2 (N.of_nat (length (og_questions m)) mod 65536) a ns 0
+            (map view_q (og_questions m)) lA lN [].
+Proof.
+  intros Hwf H0 Hsz. apply wf_out_inv in Hwf as (_ & _ & Hq & Ha & Hn & _).
+  destruct (write_questions_props _ _ _ H0 Hsz TINV_empty Hq) as [Ht0 (bs0 & Hb0 & Hpq)].
+  assert (Hp0 : PINV p0) by (split; assumption).
+  destruct (put_answers_props (og_answers m) p0 0 Hp0 Ha)
+    as (p1 & a & lA & bsA & H1 & Hp1 & Hb1 & HsA & HpA).
+  destruct (put_auths_props (og_authorities m) p1 0 Hp1 Hn)
+    as (p2 & ns & lN & bsN & H2 & Hp2 & Hb2 & HsN & HpN).
+  exists p1, a, p2, ns, lA, lN.
+  split; [exact H1|]. split; [exact H2|]. split; [exact HsA|]. split; [exact HsN|].
+  assert (HQ : forall h, blen h = 12 ->
+    ref_questions (length (og_questions m)) (h ++ p_body p0) 12
+    = Some (map view_q (og_questions m), p_size p0)).
+  { intros h Hh. apply (Hpq h [] O Hh). reflexivity. }
+  assert (Hlen : N.to_nat (N.of_nat (length (og_questions m)) mod 65536) = length (og_questions m)).
+  { pose proof (ref_questions_next _ _ _ _ _ (HQ h0 blen_h0)) as [B _].
+    unfold MAX_MSG in Hsz. rewrite N.mod_small by lia. apply Nat2N.id. }
+  split; [exact Hp2|].
+  intros h Hh. exists (p_size p0), (p_size p1), (p_size p2).
+  rewrite Hlen.
+  split.
+  { rewrite Hb2, Hb1, !app_assoc. apply ref_questions_stable, ref_questions_stable.
+    apply HQ. exact Hh. }
+  split.
+  { rewrite Hb2, app_assoc. apply ref_records_stable.
+    apply (HpA h (p_size p0) [] Hh). reflexivity. }
+  split.
+  { apply (HpN h (p_size p1) [] Hh). reflexivity. }
+  reflexivity.
+Qed.
+
+(* (v) *)
+Theorem encode_roundtrip : forall m pkts,
+  wf_out m = true -> fits m = true -> to_packets m = Ok pkts -> chk_C02 m pkts = true.
+Proof.
+  intros m pkts Hwf Hfits Hrun.
+  unfold fits in Hfits.
+  destruct (write_questions empty_pkt (og_questions m)) as [p0| | |] eqn:H0; try discriminate.
+  apply N.leb_le in Hfits.
+  destruct (sections_open m p0 Hwf H0 Hfits)
+    as (p1 & a & p2 & ns & lA & lN & H1 & H2 & HsA & HsN & Hopen).
+  apply wf_out_inv in Hwf as (Hfl & Hid0 & _ & _ & _ & Hr).
+  set (id := if og_multicast m then 0 else og_id m) in *.
+  assert (Hid : id < 65536) by (subst id; destruct (og_multicast m); [lia|exact Hid0]).
+  destruct (put_addls_props (N.land (og_flags m) 32768 =? 32768) id (og_flags m) Hid Hfl
+              (og_additionals m) p2 _ a ns 0 _ _ _ _ Hopen Hr)
+    as (mids & p' & q' & a' & ns' & ar' & ARnew & H3 & HsR & Hgood).
+  unfold to_packets, to_packets_tables in Hrun. fold id in Hrun.
+  rewrite H0 in Hrun. cbn [bind] in Hrun. rewrite H1 in Hrun. cbn [bind] in Hrun.
+  rewrite H2 in Hrun. cbn [bind] in Hrun. rewrite H3 in Hrun. cbn [bind] in Hrun.
+  inversion Hrun as [Hpk]. clear Hrun. rewrite map_app. cbn [map fst].
+  destruct Hgood as (m0 & ms & G1 & G2 & G3 & G4 & G5 & G6 & G7 & G8 & G9).
+  destruct (concat_nil_tail ms G8) as (C1 & C2 & C3).
+  unfold chk_C02. fold id. rewrite G2, G1, G3, G4, G9.
+  cbn [map concat andb app]. rewrite C1, C2, C3, G5, G6, G7, !app_nil_r.
+  rewrite (list_beq_refl ref_q_beq ref_q_beq_refl), HsA, HsN, HsR. reflexivity.
+Qed.
+
+Print Assumptions encode_total.
+Print Assumptions encode_roundtrip.
